@@ -2,7 +2,7 @@
    Directives used: those of ExtrOcamlBasic only (bool, option, unit, list, prod, sumbool, sumor -> OCaml natives;
    andb/orb inlined). nat, positive, N, Z stay as the extracted inductive types. *)
 From Coq Require Import Extraction ExtrOcamlBasic.
-From WF Require Import model.Base model.Shard model.Strings model.RunState model.Routing model.RoutingStr model.Graph model.Counter model.Launch model.Schedule.
+From WF Require Import model.Base model.Shard model.Strings model.RunState model.Routing model.RoutingStr model.Graph model.Counter model.Launch model.Schedule model.EngineBase model.Engine.
 Extraction Language OCaml.
 Extraction "wfmodel.ml"
   Z.add Z.mul Z.sub Z.opp Z.div Z.modulo Z.eqb Z.ltb Z.leb Z.of_nat Z.to_nat Z.of_N Z.to_N N.of_nat N.to_nat N.add N.eqb Z.compare
@@ -14,4 +14,5 @@ Extraction "wfmodel.ml"
   build add_transition is_terminal transitions is_valid starting_nodes terminal_nodes default_start validate_transition edges_of graph_node_ok graph_start_ok has_in has_out
   c_add c_clear c_get should_pause
   launch launch_roles role_of
-  sched_wake sched_iter.
+  sched_wake sched_iter
+  run_ops run_op w0 eval_beh ckind_code ufun_code find_step find_to resolve_pause unit_lag unit_topic is_consumer ec_graph.
